@@ -190,7 +190,7 @@ def _parse_dt(x: Any, strict: bool | None = None) -> datetime:
     # --- legacy lax behavior (backward compatible) ---
     if isinstance(x, datetime):
         return x if x.tzinfo is not None else x.replace(tzinfo=timezone.utc)
-    if isinstance(x, (int, float)):
+    if isinstance(x, (int, float)) and not isinstance(x, bool):
         try:
             return datetime.fromtimestamp(float(x), tz=timezone.utc)
         except (OverflowError, ValueError, OSError) as e:  # NaN/Inf/out-of-range epoch
